@@ -11,6 +11,7 @@ import (
 	"github.com/esimov/gogu"
 	"github.com/esimov/gogu/cache"
 	"github.com/esimov/gogu/vrtshim/vrt"
+	sync "github.com/esimov/gogu/vrtshim/vsync"
 	"verif/core"
 )
 
@@ -21,7 +22,7 @@ import (
 
 func init() {
 	registry["C18"] = func(rep *core.Report) {
-		shards := []string{"after", "before", "once", "once-more", "before-more", "retry", "retrydelay"}
+		shards := []string{"after", "before", "once", "once-more", "once-two-caches", "before-more", "retry", "retrydelay"}
 		rep.Set("engine", "vrt+explore (choice-only and virtual time): every n in -2..8 x every number of calls 0..12 x every success/failure pattern of the callback (Choose inside the callback) on the real wrappers")
 		if !runWorkers(rep, "C18worker", shards, nil) {
 			fmt.Fprintln(os.Stderr, "C18: worker failure")
@@ -89,12 +90,17 @@ func c18worker(arg string) {
 				c18onceT(c, calls, 7, 4, c18shouts(1))
 			}
 		}
+	case "once-two-caches":
+		c18onceTwo(c)
 	case "before-more":
 		for n1 := 1; n1 <= 3; n1++ {
 			for n2 := -1; n2 <= 3; n2++ {
 				for calls := 0; calls <= 4; calls++ {
 					if thorough || (n1 <= 2 && n2 >= 0 && n2 <= 2 && calls <= 3) {
 						c18beforeRoundsT(c, n1, n2, calls, 7, 4, c18ints(false))
+					}
+					if n2 >= 1 && calls >= n2 {
+						c18beforeRoundsG(c, n1, n2, calls, 7, 0, true, c18ints(false))
 					}
 					for _, z := range []int{n1, n1 + n2, n1 + 1} {
 						if z >= 1 {
@@ -416,12 +422,21 @@ func c18beforeRounds(c *c20ctx, n1, n2, calls int) {
 // clock by 2 units before a call as long as the entry stored by the round's last run stays alive
 // (the statement promises the last result, it says nothing about a cache that forgets it).
 func c18beforeRoundsT[T comparable](c *c20ctx, n1, n2, calls, lifetime, cleanup int, cd c18codec[T]) {
+	c18beforeRoundsG(c, n1, n2, calls, lifetime, cleanup, false, cd)
+}
+
+// gap: between the two rounds the clock moves past the lifetime, so the first round's entry is expired
+// but (without a cleanup goroutine) still stored when the second round stores its own result.
+func c18beforeRoundsG[T comparable](c *c20ctx, n1, n2, calls, lifetime, cleanup int, gap bool, cd c18codec[T]) {
 	var runOn []int
 	var got []T
 	var round []int
 	name := fmt.Sprintf("Before twice on one cache (n=%d with %d calls, then n=%d with %d calls)", n1, n1+1, n2, calls)
 	if lifetime > 0 || cd.name != c18ints(false).name {
 		name += fmt.Sprintf(" lifetime=%d, cleanup-interval=%d, results: %s", lifetime, cleanup, cd.name)
+	}
+	if gap {
+		name += ", the first round's entry expired (not swept) before the second round"
 	}
 	bound := 0
 	if cleanup > 0 {
@@ -437,6 +452,10 @@ func c18beforeRoundsT[T comparable](c *c20ctx, n1, n2, calls, lifetime, cleanup 
 		stored := int64(-1)
 		for r, cfg := range [][2]int{{n1, n1 + 1}, {n2, calls}} {
 			nn := cfg[0]
+			if gap && r == 1 {
+				vrt.Advance(time.Duration(lifetime+1) * unit)
+				stored = -1
+			}
 			for i := 0; i < cfg[1]; i++ {
 				if lifetime > 0 && (stored < 0 || now()+2 < stored+int64(lifetime)) && vrt.Choose(2) == 1 {
 					vrt.Advance(2 * unit)
@@ -474,4 +493,51 @@ func c18beforeRoundsT[T comparable](c *c20ctx, n1, n2, calls, lifetime, cleanup 
 		}
 		return "", ""
 	}, func() any { return fmt.Sprint(round, runOn, got) })
+}
+
+
+// c18onceTwo: two wrappers on two different caches of the same type, used by two goroutines at once (the
+// callbacks take a few scheduling points). They have nothing to do with each other: each callback runs
+// exactly once and each caller gets its own callback's result -- in every interleaving. (Whatever Once
+// keeps at package level -- a shared single-flight table, a shared key -- would tie them together.)
+func c18onceTwo(c *c20ctx) {
+	var runs [2]int
+	var got [2][2]int
+	for _, lat := range []int{0, 1, 2} {
+		name := fmt.Sprintf("Once on two caches, two goroutines, two calls each (callback latency %d)", lat)
+		c.explore(name, 0, func() {
+			runs, got = [2]int{}, [2][2]int{}
+			cas := [2]*cache.Cache[string, int]{c18cache[int](0, 0), c18cache[int](0, 0)}
+			var wg sync.WaitGroup
+			wg.Add(2)
+			for ti := 0; ti < 2; ti++ {
+				ti := ti
+				vrt.GoNamed(fmt.Sprintf("caller%d", ti), false, func() {
+					defer wg.Done()
+					for call := 0; call < 2; call++ {
+						got[ti][call] = gogu.Once[string, int, int](cas[ti], func() int {
+							runs[ti]++
+							for i := 0; i < lat; i++ {
+								vrt.Sched("callback")
+							}
+							return 100*(ti+1) + runs[ti]
+						})
+					}
+				})
+			}
+			wg.Wait()
+		}, func(x *vrt.Exec) (string, string) {
+			for ti := 0; ti < 2; ti++ {
+				if runs[ti] != 1 {
+					return "Once/two-caches/callback-does-not-run-exactly-once", fmt.Sprintf("the callback of wrapper %d ran %d times (results %v)", ti+1, runs[ti], got)
+				}
+				for call := 0; call < 2; call++ {
+					if got[ti][call] != 100*(ti+1)+1 {
+						return "Once/two-caches/returns-other-than-own-first-result", fmt.Sprintf("wrapper %d, call %d returned %d, want %d (results %v)", ti+1, call+1, got[ti][call], 100*(ti+1)+1, got)
+					}
+				}
+			}
+			return "", ""
+		}, func() any { return fmt.Sprint(runs, got) })
+	}
 }
